@@ -1149,6 +1149,14 @@ func gen(g *core.G) {
 			}
 		}
 	}
+	// case-insensitive Enums over letters whose lower case is not ASCII arithmetic (strings.ToLower = unicode.ToLower rune by
+	// rune: É, İ → i, the title-case digraph ǅ, final sigma stays, the Kelvin sign K → k, ß unchanged, Deseret)
+	for _, v := range []string{"\u00c9cole", "\u0130x", "\u01c5", "\u03a3\u03c3\u03c2", "\u212a", "Stra\u00dfe", "\U00010400", "\u00e9", "ABC", "a\u0300"} {
+		emitValid("Enum['" + v + "', true]")
+		emitValid("Enum['" + v + "', false]")
+		emitValid("Enum[['" + v + "', 'b'], true]")
+		emitValid("Struct[{k => Enum['" + v + "', 'X', true]}]")
+	}
 	for _, t := range []string{"Runtime", "Runtime['ruby']", "Runtime['go']", "Runtime['ruby', 'x']", "Runtime['ruby', 'x', Regexp[/a/]]", "Runtime['ruby', 'x', Regexp]", "Runtime['ruby', '']",
 		"TypeReference", "TypeReference['x']", "TypeReference['']", "TypeReference['it\\'s \\\\']", "TypeReference['UnresolvedReference']", "Typereference['x']", "Foo", "My::Thing", "Catalogentry", "My::Other",
 		"Foo['x']", "My::Thing['Foo']", "Array[Foo]", "Struct[{a => My::Thing, b => Runtime['ruby', 'x']}]", "Optional[TypeReference['q']]",
